@@ -246,10 +246,18 @@ def generate(rng, n, tier):
             c.update(full=kind, x=x, lo=min(x) - rng.randint(0, 2), hi=max(x) + rng.randint(1, 3), arr=False)
         elif t == "unique":
             full = [float(v) for v in rng.sample(range(-3, 9), rng.randint(0, 7))]
-            if rng.random() < 0.1 and full:
-                full.append(full[0])
+            if rng.random() < 0.3 and full:      # allowed values named more than once (also as int and float): still one candidate each
+                for _ in range(rng.choice([1, 2, 3])):
+                    full.insert(rng.randrange(len(full) + 1), rng.choice(full))
             pool = full if rng.random() < 0.85 or not full else full + [20.0]
             x = [rng.choice(pool) for _ in range(rng.choice([0, 1, 2, 3, 4, 5, 6]))] if pool else []
+            if rng.random() < 0.2:
+                # a short allowed list in which one value is named twice or three times, an input that repeats ONE other value: the replacements
+                # must still be pairwise distinct
+                vals = [float(v) for v in rng.sample(range(-3, 9), rng.randint(3, 5))]
+                full = vals + [vals[0]] * rng.choice([1, 2])
+                rng.shuffle(full)
+                x = [vals[1]] * rng.choice([2, 3])
             c.update(full=full, x=x)
         elif t == "masked":
             x = _vec(rng)
